@@ -36,6 +36,8 @@ type Config struct {
 	MapOrder    string // "", "reverse", "swap:<k>"
 	Bounds      map[string]int
 	Deadline    time.Time
+	SampleMax   int   // translator validation: number of returning paths whose model is replayed natively
+	SampleSeed  int64
 }
 
 func defaultConfig() *Config {
@@ -81,6 +83,7 @@ type PathRec struct {
 	Notes    map[string]string
 	PCModel  map[string]string
 	NondetSeq []NondetRec
+	Sampled  bool
 }
 
 type Result struct {
@@ -977,6 +980,7 @@ func (e *Exec) RunWith(fn *ssa.Function, mkArgs func(e *Exec) []Value) *Result {
 	t0 := time.Now()
 	q0, d0 := e.s.Queries, e.s.Dur
 	e.work = [][]bool{{}}
+	sampled := 0
 	for len(e.work) > 0 {
 		if len(res.Paths) >= e.cfg.MaxPaths {
 			res.Truncated = true
@@ -1016,8 +1020,13 @@ func (e *Exec) RunWith(fn *ssa.Function, mkArgs func(e *Exec) []Value) *Result {
 			e.call(fn, args, nil)
 			rec.End = "return"
 		}()
-		if rec.End == "panic" && os.Getenv("SYMGO_PCMODEL") != "" {
-			rec.PCModel = e.pathModel()
+		if rec.End == "return" && sampled < e.cfg.SampleMax && !usesUnreplayable(e.stubs) && (int64(len(res.Paths))+e.cfg.SampleSeed)%3 == 0 {
+			if m := e.pathModel(); m != nil {
+				rec.PCModel = m
+				rec.NondetSeq = e.nondetWithModel(m)
+				rec.Sampled = true
+				sampled++
+			}
 		}
 		if rec.End == "panic" {
 			// keep a model of the panicking path for replay
@@ -1055,6 +1064,17 @@ func (e *Exec) RunWith(fn *ssa.Function, mkArgs func(e *Exec) []Value) *Result {
 	res.SolverDur = e.s.Dur - d0
 	res.Wall = time.Since(t0)
 	return res
+}
+
+// usesUnreplayable: paths through uninterpreted or environment stubs have
+// models the native build cannot be steered into.
+func usesUnreplayable(stubs map[string]int) bool {
+	for k := range stubs {
+		if strings.HasPrefix(k, "uf:") || strings.HasPrefix(k, "env:") {
+			return true
+		}
+	}
+	return false
 }
 
 // pathModel returns a model of the current path condition (all input symbols).
